@@ -45,8 +45,11 @@ class Obs:
         self.cx, self.tier, self.seed = cx, tier, seed
         if isinstance(impl, Exception):
             raise impl
-        self.ctx = impl if impl is not None else util.make_context(cx)
-        self.lattice = self.ctx.lattice
+        if isinstance(impl, tuple):
+            self.ctx, self.lattice = impl
+        else:
+            self.ctx = impl if impl is not None else util.make_context(cx)
+            self.lattice = self.ctx.lattice
         self.concepts = list(self.lattice)
         self.pos = positions(self.concepts)
         self.n = len(self.concepts)
@@ -78,6 +81,11 @@ def obs_c03(o):
                 c2.neighbors(t)
                 c2.intension(t)
             c2[(o.cx.properties[0],)]
+            for start in ([objs[-1]], list(objs[:2])):
+                try:
+                    type(o.lattice)(c2, infimum=start)        # a lattice above another start (may be rejected)
+                except Exception:  # noqa: BLE001
+                    pass
             pairs2 = sorted((util.bits_of(c.extent, o.cx.objects), util.bits_of(c.intent, o.cx.properties)) for c in c2.lattice)
             again = sorted((util.bits_of(c.extent, o.cx.objects), util.bits_of(c.intent, o.cx.properties)) for c in type(c2.lattice)(c2))
             if pairs2 != pairs or again != pairs or len(c2.lattice) != len(pairs):
@@ -110,7 +118,7 @@ def obs_c05(o):
         import copy
         import pickle
         want = [(sorted(u.index for u in c.upper_neighbors), sorted(l.index for l in c.lower_neighbors)) for c in o.concepts]
-        for name, fn in (('pickle', lambda: pickle.loads(pickle.dumps(o.lattice))), ('deepcopy', lambda: copy.deepcopy(o.lattice))):
+        for name, fn in (('pickle', lambda: pickle.loads(pickle.dumps(o.lattice))), ('deepcopy', lambda: copy.deepcopy(o.lattice)), ('copy', lambda: copy.copy(o.lattice))):
             try:
                 cp = list(fn())
                 posc = {id(c): i for i, c in enumerate(cp)}
@@ -124,9 +132,12 @@ def obs_c05(o):
     limit = 6 if o.tier == 'quick' else 7
     for t in itertools.islice(gen.subsets(o.cx.nG, limit, o.r, extra=24), 1500):
         labs = [o.cx.objects[i] for i in t]
+        if len(queries) % 4 == 3 and labs:
+            labs = labs + labs[:1] + labs[-1:]          # repeated labels denote the same set
 
         def call():
-            res = o.ctx.neighbors(iter(labs) if len(queries) % 3 == 1 else labs)
+            res = o.ctx.neighbors(iter(labs) if len(queries) % 3 == 1 else
+                                  (''.join(labs) if len(queries) % 3 == 0 and all(len(x) == 1 for x in labs) else labs))
             raw = o.ctx.neighbors((x for x in labs) if len(queries) % 3 == 2 else labs, raw=True)
             pairs = sorted((util.bits_of(e, o.cx.objects), util.bits_of(i, o.cx.properties)) for e, i in res)
             if sorted((int(e), int(i)) for e, i in raw) != pairs or len(set(pairs)) != len(pairs):
@@ -200,7 +211,7 @@ def obs_c06(o):
         import copy
         import pickle
         for name, fn in (('pickle', lambda: pickle.loads(pickle.dumps(o.lattice))),
-                         ('deepcopy', lambda: copy.deepcopy(o.lattice)),
+                         ('deepcopy', lambda: copy.deepcopy(o.lattice)), ('copy', lambda: copy.copy(o.lattice)),
                          ('pickle of a pickled copy', lambda: pickle.loads(pickle.dumps(pickle.loads(pickle.dumps(o.lattice, 2)))))):
             try:
                 obss.append(lattice_order_obs(o, fn()))
@@ -235,9 +246,11 @@ def obs_c02(o):
     itemlists.append([('p', 0), ('p', cx.nM + 1)])
     for items in itemlists:
         labs = tuple(labels_of_items(cx, items))
+        # a plain str is an iterable of one-character labels
+        key = ''.join(labs) if (len(cq) % 3 == 2 and all(len(x) == 1 for x in labs)) else labs
 
         def call():
-            e, i = o.ctx[labs]
+            e, i = o.ctx[key]
             re_, ri = o.ctx.__getitem__(iter(labs) if len(cq) % 2 else labs, raw=True)
             if re_.members() != e or ri.members() != i:
                 raise AssertionError('raw and label forms differ')
@@ -249,11 +262,11 @@ def obs_c02(o):
             q = util.bits_of(labs, cx.objects if items[0][0] == 'o' else cx.properties)
             if raw[0 if items[0][0] == 'o' else 1] != q:
                 nontrivial = True
-        tag, idx = guarded(lambda: o.p(o.lattice[labs]), 0)
+        tag, idx = guarded(lambda: o.p(o.lattice[key]), 0)
         lq.append((items_term(items), False, tag, nat(idx)))
         subs_l.append({'call': 'Lattice.__getitem__', 'items': list(labs), 'tag': tag, 'index': idx})
         if all(s == 'p' for s, _ in items):
-            tag, idx = guarded(lambda: o.p(o.lattice(labs)), 0)
+            tag, idx = guarded(lambda: o.p(o.lattice(key)), 0)
             lq.append((items_term(items), True, tag, nat(idx)))
             subs_l.append({'call': 'Lattice.__call__', 'items': list(labs), 'tag': tag, 'index': idx})
     # lattice[()] is the top, lattice(()) the concept of the empty property set, lattice[i] the i-th member
@@ -427,7 +440,7 @@ def obs_c10(o):
         import copy
         import pickle
         want = [(c.objects, c.properties, tuple(a.index for a in c.atoms)) for c in o.concepts]
-        for name, fn in (('pickle', lambda: pickle.loads(pickle.dumps(o.lattice))), ('deepcopy', lambda: copy.deepcopy(o.lattice))):
+        for name, fn in (('pickle', lambda: pickle.loads(pickle.dumps(o.lattice))), ('deepcopy', lambda: copy.deepcopy(o.lattice)), ('copy', lambda: copy.copy(o.lattice))):
             try:
                 got = [(c.objects, c.properties, tuple(a.index for a in c.atoms)) for c in fn()]
             except Exception:  # noqa: BLE001
@@ -559,6 +572,93 @@ OBSERVERS = {'C02': obs_c02, 'C03': obs_c03, 'C05': obs_c05, 'C06': obs_c06, 'C0
              'C09': obs_c09, 'C10': obs_c10, 'C18': obs_c18, 'C20': obs_c20}
 
 
+class _Holder:
+    pass
+
+
+def indirect_impls(cx, seed):
+    """The same context / lattice obtained through other public entry points: (tag, impl) pairs, impl being a
+    Context or a (Context, Lattice) pair; a failing constructor yields the exception."""
+    import copy
+    import io
+    import json
+    import pickle
+    import tempfile
+    import os
+    import concepts
+    base = util.make_context(cx)
+    h = _Holder()
+    h.ctx, h.r = base, rnd_for(cx, seed + 77)
+    out = []
+
+    def add(tag, fn):
+        try:
+            out.append((tag, fn()))
+        except Exception as e:  # noqa: BLE001
+            out.append((tag, e))
+    name, d = permuted_serialisations(h)[1]
+
+    def json_file_raw():
+        fd, path = tempfile.mkstemp(suffix='.json')
+        os.close(fd)
+        try:
+            with open(path, 'w', encoding='utf-8') as f:
+                json.dump(d, f, indent=2)
+            return concepts.Context.fromjson(path, raw=True)
+        finally:
+            os.unlink(path)
+    add('fromjson(path, raw=True) of a fully permuted serialisation', json_file_raw)
+    add('fromjson(StringIO, raw=True)', lambda: concepts.Context.fromjson(io.StringIO(json.dumps(d)), raw=True))
+    add('fromdict(todict())', lambda: concepts.Context.fromdict(base.todict()))
+    add('pickled lattice', lambda: (base, pickle.loads(pickle.dumps(base.lattice))))
+    add('deep-copied lattice', lambda: (base, copy.deepcopy(base.lattice)))
+    add('shallow-copied lattice', lambda: (base, copy.copy(base.lattice)))
+    add('pickled context', lambda: pickle.loads(pickle.dumps(util.make_context(cx))))
+    add('Context(*Definition)', lambda: concepts.Context(*concepts.Definition(cx.objects, cx.properties, cx.bools)))
+    add('context.copy()', lambda: base.copy())
+    # cells are taken by truthiness: counts and arbitrary objects are legal cells
+    add('Context with count cells (0, 2, 3, ...)',
+        lambda: concepts.Context(cx.objects, cx.properties, [tuple((2 + (i + j) % 3) if b else 0 for j, b in enumerate(row)) for i, row in enumerate(cx.bools)]))
+    add('Context with str / None cells',
+        lambda: concepts.Context(cx.objects, cx.properties, [tuple('x' if b else (None if j % 2 else '') for j, b in enumerate(row)) for row in cx.bools]))
+    add('fromstring(tostring()) as table', lambda: concepts.Context.fromstring(base.tostring()))
+    add('make_context(cxt text)', lambda: concepts.make_context(base.tostring(frmat='cxt'), frmat='cxt'))
+    return out
+
+
+def indirect_bases(tier, seed):
+    bases = [c for c in gen.fam(6) if c.nG * c.nM <= 49]
+    bases += gen.rnd(12 if tier == 'quick' else 60, seed + 3, max_rows=6, max_cols=6)
+    bases += [c for i, c in enumerate(gen.exh(6)) if (i + seed) % (37 if tier == 'quick' else 7) == 0]
+    return bases
+
+
+def indirect_context_cases(tier, seed, observe_ctx, failed):
+    """Cases for the properties observed through a Context only (C01, C04, C16): the same observation on contexts
+    obtained through the other public entry points.  observe_ctx(cx, ctx) -> Case; failed(cx, exc) -> Case."""
+    out = []
+    for cx in indirect_bases(tier, seed):
+        for tag, impl in indirect_impls(cx, seed):
+            if isinstance(impl, tuple):
+                continue                      # a copied lattice has no public way back to a context
+            try:
+                c = failed(cx, impl) if isinstance(impl, Exception) else observe_ctx(cx, impl)
+            except Exception as e:  # noqa: BLE001
+                c = failed(cx, e)
+            c.replay = dict(c.replay, obtained=tag)
+            c.sig = (cx.key(), tag)
+            out.append(c)
+    return out
+
+
+def indirect_replay(inp, observe_ctx):
+    cx = gen.Ctx.from_json(inp)
+    for tag, impl in indirect_impls(cx, 0):
+        if tag == inp.get('obtained') and not isinstance(impl, (tuple, Exception)):
+            return observe_ctx(cx, impl)
+    return None
+
+
 def observe(prop, cx, tier, seed, impl=None):
     o = Obs(cx, tier, seed, impl)
     term, nontrivial, subs = OBSERVERS[prop](o)
@@ -586,10 +686,23 @@ def module(prop, theorems, rule, extra_targets=(), exh=(9, 12), rnd=(200, 1500),
         ctxs = util.contexts_for(tier, seed, exh_quick=exh[0], exh_thorough=exh[1],
                                  rnd_quick=rnd[0], rnd_thorough=rnd[1], big=big[0] if tier == 'quick' else big[1])
         impls = util.prebuild(ctxs)
-        return [observe_safe(prop, cx, tier, seed, impl) for cx, impl in zip(ctxs, impls)]
+        out = [observe_safe(prop, cx, tier, seed, impl) for cx, impl in zip(ctxs, impls)]
+        for cx in indirect_bases(tier, seed):
+            for tag, impl in indirect_impls(cx, seed):
+                c = observe_safe(prop, cx, tier, seed, impl)
+                c.replay = dict(c.replay, obtained=tag)
+                c.sig = (cx.key(), tag)
+                c.subs = [dict(x, obtained=tag) if isinstance(x, dict) else x for x in (c.subs or [])]
+                out.append(c)
+        return out
 
     def case_from_replay(inp):
-        return observe_safe(prop, gen.Ctx.from_json(inp), 'quick', 0)
+        cx = gen.Ctx.from_json(inp)
+        if inp.get('obtained'):
+            for tag, impl in indirect_impls(cx, 0):
+                if tag == inp['obtained']:
+                    return observe_safe(prop, cx, 'quick', 0, impl)
+        return observe_safe(prop, cx, 'quick', 0)
 
     def shrink_candidates(case):
         return [observe_safe(prop, c, 'quick', 0) for c in shrink_ctx(gen.Ctx.from_json(case.replay))]
